@@ -722,3 +722,32 @@ func (p *Project) AutomanFile() string {
 func (p *Project) DailyColumns() []OutCol  { return p.dailyCols() }
 func (p *Project) YearlyColumns() []OutCol { return p.yearlyCols() }
 func (p *Project) CropColumns() []OutCol   { return p.cropCols() }
+
+// SetVerificationOutputs installs the verification output configuration: every layer of water, mineral N and
+// temperature, the organic pools, all counters and the whole crop state at full precision (%.17g).
+func (p *Project) SetVerificationOutputs() {
+	n := p.Soil.Horizons[len(p.Soil.Horizons)-1].LowerDm
+	f := func(v string, i1, i2 int) OutCol { return OutCol{Var: v, Idx1: i1, Idx2: i2, Format: "%.17g", Width: 26} }
+	cols := []OutCol{{Var: "AKTUELL", Format: "%s", Width: 10}}
+	for i := 0; i < n; i++ {
+		cols = append(cols, f("WG", 1, i), f("C1", i, 0), f("TD", i, 0))
+	}
+	for i := 0; i < 3; i++ {
+		cols = append(cols, f("NAOS", i, 0), f("NFOS", i, 0), f("MINAOS", i, 0), f("MINFOS", i, 0))
+	}
+	for i := 0; i < 5; i++ {
+		cols = append(cols, f("WORG", i, 0))
+	}
+	for _, v := range []string{"OUTSUM", "SICKER", "CAPSUM", "AUFNASUM", "PESUM", "OBMAS", "WUMAS", "LAI", "ASPOO", "GEHOB", "WUGEH", "REDUK", "TRREL", "ETA", "GRW",
+		"CUMDENIT", "N2onitsum", "DRAINLOSS", "DRAISUM", "NFIXSUM", "DSUMM", "UMS", "PHYLLO", "FKC", "VERDUNST", "TEMPdaily", "REGENdaily", "RADdaily", "INTWICK.Num", "HARVEST"} {
+		cols = append(cols, f(v, 0, 0))
+	}
+	cols = append(cols, OutCol{Var: "WURZ", Format: "%d", Width: 4}, OutCol{Var: "BBCH", Format: "%d", Width: 4})
+	p.Daily = cols
+	p.Yearly = []OutCol{{Var: "AKTUELL", Format: "%s", Width: 10}, f("PerY", 0, 0), f("AUFNASUM", 0, 0), f("OUTSUM", 0, 0), f("SOC1", 0, 0), f("SWCY1", 0, 0)}
+	cc := p.cropCols()[:8]
+	for _, v := range []string{"Yield", "Biomass", "Roots", "LAImax", "Nuptake", "Nagb", "ETcG", "ETaG", "TraG", "PerG", "Nmin1", "Nmin2", "NLeaG", "TRRel", "Reduk", "Nresid", "SoilN1", "GPPsum"} {
+		cc = append(cc, f(v, 0, 0))
+	}
+	p.CropOut = cc
+}
